@@ -331,7 +331,8 @@ class Gen:
         params = [self.pick_new(env) for _ in range(np)]
         env["nums"] += params
         if r.random() < 0.5 and genv["nums"]:
-            env["nums"] += genv["nums"]           # file-scope numeric globals are visible
+            env["nums"] += genv["nums"]           # file-scope numeric globals are used: do not shadow them
+            env["all"] |= set(genv["nums"])       # (a shadowing closure would be printed as source text)
         body = []
         for _ in range(r.randint(2, 7)):
             before = set(env["nums"])
@@ -340,7 +341,7 @@ class Gen:
                 env["consts"] |= set(env["nums"]) - before
             body.append(s)
         # ++ on a const would throw: the bigint statement guards by env["consts"]; params and lets only elsewhere
-        ret = [n for n in env["nums"] if n in env["all"]] + [o for o, _ in env["objs"]] + env["arrs"] + env["strs"]
+        ret = [n for n in env["nums"] if n in env["all"] and n not in genv["nums"]] + [o for o, _ in env["objs"]] + env["arrs"] + env["strs"]
         obj = ", ".join(ret[:12])
         if r.random() < 0.5 and ret:
             self.feat.add("shorthand-return")
